@@ -97,6 +97,22 @@ def mutate(rnd, toks, kind, sep, numeric_idx):
     return sep.join(t)
 
 
+def _positions(rnd, cols):
+    """every column (date, required, optional) at every position of the header, the first and the last included"""
+    cols = list(cols)
+    if rnd.random() < 0.4:
+        rnd.shuffle(cols)
+    opt = [x for x in cols if x in ("rad", "sund", "verd")]
+    r = rnd.random()
+    if opt and r < 0.3:
+        x = rnd.choice(opt); cols.remove(x); cols.insert(0, x)           # an optional column is the FIRST header column (index 0)
+    elif opt and r < 0.45:
+        x = rnd.choice(opt); cols.remove(x); cols.append(x)
+    elif r < 0.6:
+        cols.remove("date"); cols.insert(rnd.randrange(0, len(cols) + 1), "date")
+    return cols
+
+
 def make_file(rnd, layout, idx):
     none = rnd.choice(["-99", "-99.9", "-999", "999.9"])
     year = rnd.choice([1979, 1980, 1983, 1984, 1999, 2000, 2011, 2012])
@@ -182,6 +198,7 @@ def make_file(rnd, layout, idx):
             cols.insert(rnd.randrange(1, len(cols) + 1), "sund")
         if rnd.random() < 0.1:
             cols.insert(rnd.randrange(1, len(cols) + 1), "verd")
+        cols = _positions(rnd, cols)
         extra = rnd.choice([0, 0, 1, 3])
         sep = rnd.choice([",", ",", ";", "\t"])
         nh = rnd.choice([1, 2, 2, 3])
@@ -197,7 +214,7 @@ def make_file(rnd, layout, idx):
             toks = [d.isoformat() if x == "date" else r[x] for x in cols] + [_num(rnd, 0, 9) for _ in range(extra)]
             if k == mi:
                 c["mut_date"], c["mut_rec"] = d, r
-                body.append(mutate(rnd, toks, mutk, sep, list(range(1, len(cols)))))
+                body.append(mutate(rnd, toks, mutk, sep, [i for i, x in enumerate(cols) if x != "date"]))
             else:
                 body.append(sep.join(toks) + (sep if rnd.random() < 0.08 else ""))
         bd = rnd.random()
@@ -220,6 +237,7 @@ def make_file(rnd, layout, idx):
             cols.remove("rad")
         if rnd.random() < 0.2:
             cols.insert(rnd.randrange(1, len(cols) + 1), "sund")
+        cols = _positions(rnd, cols)
         with_co2 = rnd.random() < 0.5
         sep = rnd.choice(["  ", " ", "\t", ";"])
         nh = rnd.choice([1, 1, 2])
@@ -234,7 +252,7 @@ def make_file(rnd, layout, idx):
                 toks.append(rnd.choice(["350", "361.5", "400"]))
             if k == mi:
                 c["mut_date"], c["mut_rec"] = d, r
-                body.append(mutate(rnd, toks, mutk, sep, list(range(1, len(cols)))))
+                body.append(mutate(rnd, toks, mutk, sep, [i for i, x in enumerate(cols) if x != "date"]))
             else:
                 body.append((" " if rnd.random() < 0.5 else "") + sep.join(toks))
         bd = rnd.random()
@@ -262,9 +280,9 @@ def gen_files(ctx):
 
 # ---------------------------------------------------------------------------------------------
 
-def run_real(ctx, root, cases):
+def run_real(ctx, root, cases, sub="tok"):
     """writes the files, runs the real readers (restarting after every log.Fatal); returns [result dict]"""
-    fdir = os.path.join(root, "tok")
+    fdir = os.path.join(root, sub)
     os.makedirs(fdir, exist_ok=True)
     cf = os.path.join(fdir, "cases.jsonl")
     with open(cf, "w") as f:
@@ -274,7 +292,7 @@ def run_real(ctx, root, cases):
                 with open(p, "wb") as g:
                     g.write(c["text"].encode("ascii"))
             f.write(json.dumps({"Path": p, "Layout": c["layout"], "Nh": c["nh"], "None": float(c["none"]), "Year": c["year"],
-                                "Nslots": c["nslots"]}) + "\n")
+                                "Nslots": c["nslots"], "Preco": c.get("preco_dir", "")}) + "\n")
     vh = ctx.harness()
     res = {}
     start = 0
@@ -489,3 +507,75 @@ def oracle_wellformed(cases, results):
                 bad.append((c, msg)); break
             n += 1
     return bad, n
+
+
+# ---------------------------------------------------------------------------------------------
+# precipitation correction: the whole finite domain (every day number of a 365- and a 366-day year, all three readers)
+
+PRECO_FACTORS = ["1.01", "1.13", "0.97", "1.21", "1.07", "0.89", "1.19", "0.93", "1.03", "1.11", "0.91", "1.17"]   # pairwise different
+
+
+def preco_cases(root):
+    pdir = os.path.join(root, "preco")
+    os.makedirs(pdir, exist_ok=True)
+    with open(os.path.join(pdir, "preco.txt"), "w") as f:
+        f.write("Mo corr\n" + "".join("%02d %s\n" % (m + 1, v) for m, v in enumerate(PRECO_FACTORS)))
+    cases = []
+    for layout in (0, 1, 2):
+        for year in (1999, 2000):
+            days = [D(year, 1, 1) + datetime.timedelta(days=k) for k in range(366 if year % 4 == 0 else 365)]
+            if layout == 0:
+                lines = ["tavg;tmin;tmax;ET0;relhumid;vapp14;wind;sundu;globrad;precip;jday"] + \
+                        ["5.0;1.0;9.0;1.0;80.0;1.0;3.0;4.0;10.0;10.0;%d" % doy(d) for d in days]
+                nh = 1
+            elif layout == 1:
+                lines = ["iso-date,tmin,tavg,tmax,precip,globrad,wind,relhumid"] + ["%s,1.0,5.0,9.0,10.0,10.0,3.0,80.0" % d.isoformat() for d in days]
+                nh = 1
+            else:
+                lines = ["@YYYYJJJ TMIN TMAX RAD PREC WIND RH"] + ["%04d%03d 1.0 9.0 10.0 10.0 3.0 80.0" % (d.year, doy(d)) for d in days]
+                nh = 1
+            cases.append({"idx": len(cases), "layout": layout, "nh": nh, "none": "-99.9", "year": year, "nslots": 1, "missing": False,
+                          "text": "\n".join(lines) + "\n", "preco_dir": pdir, "days": days})
+    return cases
+
+
+def evaluate_preco(ctx, cases, results):
+    """(model/reader disagreements, property failures): factor used on every day of the year vs WeatherModel (Coq sweep) and
+    vs the civil month of that day (directly)"""
+    from props.wxlib import hexf
+    mism, fails = [], []
+    defs, names = [], []
+    for c, o in zip(cases, results):
+        tag = "layout%d:%d" % (c["layout"], c["year"])
+        if o["class"] != "ok" or not o["slots"] or o["slots"][0]["jar"] != c["year"]:
+            mism.append({"kind": "preco-sweep", "what": "reader did not load the year file of the sweep", "case": tag, "class": o["class"], "err": o.get("err", "")})
+            continue
+        obs = [row[6] for row in o["slots"][0]["cells"]]
+        defs.append("Definition S%d := Eval vm_compute in preco_sweep corr %d%%Z [%s]." % (len(names), c["year"], "; ".join(_fl(x) for x in obs)))
+        names.append(tag)
+        # the property, directly: mm -> cm with the factor of the civil month of the day
+        for d, x in zip(c["days"], obs):
+            want = 10.0 / 10 * float(PRECO_FACTORS[d.month - 1])
+            if float.fromhex(x) != want:
+                fails.append(("precipitation-correction-wrong-month:%s:%s" % (tag, d),
+                              "10.0 mm on %s (day %d of %d) stored as %r cm, the factor of month %d gives %r"
+                              % (d, doy(d), c["year"], float.fromhex(x), d.month, want)))
+                break
+        if len(obs) != len(c["days"]):
+            fails.append(("precipitation-correction-year-length:%s" % tag, "%d days stored, the year has %d" % (len(obs), len(c["days"]))))
+    if defs:
+        body = ["From Coq Require Import ZArith List Bool Floats.", "From Hermes Require Import Num WeatherModel C04TokCorr.", "Import ListNotations.",
+                "Open Scope float_scope.", "Definition corr : list float := [%s]." % "; ".join(hexf(float(v)) for v in PRECO_FACTORS)] + defs + \
+               ["Definition ALL := [%s]." % "; ".join("S%d" % k for k in range(len(names))), "Print ALL."]
+        rc, out = ctx.coq_eval("Cases_C04_preco", "\n".join(body) + "\n")
+        m = re.search(r"ALL\s*=\s*(\[.*\])\s*:\s*list \(list Z\)", out, re.S)
+        if rc != 0 or not m:
+            mism.append({"kind": "coq-eval", "shard": "Cases_C04_preco", "output": out[-1200:]})
+        else:
+            groups = re.findall(r"\[([^\[\]]*)\]", m.group(1)[1:-1])
+            for tag, g in zip(names, groups):
+                idx = [int(x) for x in re.findall(r"-?\d+", g)]
+                if idx:
+                    mism.append({"kind": "preco-sweep", "what": "factor of the reader differs from WeatherModel.corr_value on day indices (0-based; -1 = year length)",
+                                 "days": idx[:12], "case": tag})
+    return mism, fails
